@@ -130,6 +130,7 @@ func (ss sizesim) Run(c *Case, dir string) *Outcome {
 	}
 	setBound()
 	for i := range c.Prog.Steps {
+		Tick()
 		st := &c.Prog.Steps[i]
 		switch st.Kind {
 		case "tx":
